@@ -123,6 +123,9 @@ let eval inp obs =
        | t :: trest ->
          let f = String.split_on_char ':' t in
          (match o, f with
+          | "NEW" :: _, "new" :: "ok" :: "nodefault" :: _ ->
+            fail "NewProducer accepted a routing table without a default route (RouteOf would not terminate)";
+            walk orest trest
           | "NEW" :: es, "new" :: "ok" :: det :: _ ->
             if det <> "1" then fail ("RouteOf differs between constructions of the same routing table: " ^ t);
             let s = List.sort compare es in
